@@ -4,24 +4,36 @@ Spec: specs/Geometry.tla.  mode "maps": TLC enumerates every geometry configurat
 Partition, Bijection, RoundTrip, Idempotent, Columnwise and Shapes on the specification's index-level maps and emits
 the exact index maps / step partitions (rational grids, exact membership) / rational projections.  mode "conv": TLC
 explores the flag automaton of Samples (funvals / vector / parameters) and CUQIarray (funvals / parameters) with
-explicit content for trails of <= 3 conversions (FlagsLegal, Lossless) and emits every behaviour.  This module drives
-the real cuqi.geometry / Samples / CUQIarray objects through every emitted case.
+explicit content for trails of <= 3 conversions (FlagsLegal, Lossless) and emits every behaviour.  Mapped geometries are
+modelled structurally (par2fun = Map . inner.par2fun, fun2par = inner.fun2par . IMap) over every inner kind with affine,
+cube (exact rationals) and exp (tagged pre-image) maps and stacks of two maps.  mode "seq": behaviours Use / Set on ONE
+object (public setters: grid, Discrete.variables; also of the geometry inside a MappedGeometry); after every action the
+object must answer like a freshly constructed geometry with the current settings (SeqFresh).  This module drives the real
+cuqi.geometry / Samples / CUQIarray objects through every emitted case.
 """
 META = {
     "claimed": True,
     "engine": "Geometry.tla",
     "text": ("TLC enumerates Continuous1D / default / Discrete (n<=4/6), Image2D C and F order, visual-only, default 2D and "
-             "Continuous2D (r,c<=3/4 incl. 1xn), mapped geometries, KLExpansion (grid<=4/6, every mode count, grid "
+             "Continuous2D (r,c<=3/4 incl. 1xn), MappedGeometry (structurally: par2fun = map . inner.par2fun, fun2par = "
+             "inner.fun2par . imap; affine, cube, exp and two stacked maps over 1D / discrete / image C,F / visual-only / "
+             "Continuous2D / KL with all and truncated modes / step geometries), KLExpansion (grid<=4/6, every mode count, grid "
              "replacement) and StepExpansion on rational grids (n<=12/24 nodes, every n_steps<=n, 9/30 offset-length "
              "pairs, three projections), checks Partition, Bijection, RoundTrip, Idempotent, Columnwise (numpy reshape "
              "index arithmetic) and Shapes on the specification and emits exact index maps, partitions and rational "
              "projections; it explores the Samples / CUQIarray conversion automaton with explicit content for trails "
-             "of <=3 conversions (FlagsLegal, Lossless; five named deviations must each violate their invariant). The "
+             "of <=3 conversions (FlagsLegal, Lossless) and behaviours of <=3/4 uses and public reassignments (grid, "
+             "variables; also of the geometry inside a wrapper) on one object (SeqFresh: the object answers like a fresh "
+             "geometry with the current settings); ten named deviations must each violate their invariant. The "
              "harness applies the real maps to basis vectors, ramps and batches of width 2 and 3, reads the step "
-             "partition through fun2par, and replays every conversion behaviour comparing flags and content after "
-             "every action."),
+             "partition through fun2par, replays every conversion behaviour comparing flags and content after "
+             "every action, and replays every use / reassign behaviour on one real object comparing after every action."),
     "note": ("Bounded sizes; KLExpansion is specified abstractly in the sine basis written in its docstring (decay 2, "
              "normalizer 12; compared to 1e-10), KLExpansion_Full / CustomKL / FEniCS geometries are not modelled. "
+             "Maps of a mapped geometry are applied by the harness in floating point to the specification's pre-image "
+             "(exact rational values of affine / cube maps are emitted and cross-checked). Only attributes with public "
+             "setters are reassigned (grid, variables); a refused assignment is accepted; length of `variables` after a "
+             "reassignment is an observation. "
              "Batch behaviour is asserted for par2fun everywhere and for fun2par of the continuous, KL and step "
              "geometries; Image2D.fun2par on batches and Continuous2D.fun2vec are observations. A grid node that "
              "coincides with an interior step boundary may be assigned to either neighbouring step (observation) as long "
@@ -37,7 +49,11 @@ from fractions import Fraction
 import numpy as np
 
 DEVIATIONS = [("openfirst", "PartitionInv"), ("batchmix", "ColumnwiseInv"), ("ravelC", "RoundTripInv"), ("stalekl", "RoundTripInv"),
-              ("vectorsetspar", "Lossless")]
+              ("vectorsetspar", "Lossless"),
+              # MappedGeometry.fun2par = imap . inner.fun2par (IMapAfterInnerFun2Par): mapped KL round trip; mapped step projection
+              ("imapafter", "MappedRoundTripInv"), ("imapafter_proj", "MappedProjectionInv"),
+              # a public setter that does not recompute / forget what was derived from the old value
+              ("stalestep", "SeqFresh"), ("stalefunvec", "SeqFresh"), ("stalewrap", "SeqFresh")]
 TOL = 1e-12
 KLTOL = 1e-10
 
@@ -54,14 +70,52 @@ def dec(v, ndim):
     return np.array([dec(x, ndim - 1) for x in v], dtype=float)
 
 
+def _cube(v):
+    return v ** 3
+
+
+def _affine(v):
+    return 2 * v + 1
+
+
+def _iaffine(f):
+    return (f - 1) / 2
+
+
+# entry-wise maps of MappedGeometry named by the specification: (map, inverse map)
+MAPS = {"affine": (_affine, _iaffine), "cube": (_cube, np.cbrt), "exp": (np.exp, np.log)}
+
+
+# derivatives of the maps (only to bound the floating-point error of a round trip through the inverse maps)
+DMAPS = {"affine": lambda v: 2.0 + 0 * v, "cube": lambda v: 3 * v ** 2, "exp": np.exp}
+
+
+def apply_maps(ms, x):
+    """<<m1, .., mj>>: mj(.. m1(x))"""
+    for mp in ms:
+        x = MAPS[mp][0](x)
+    return x
+
+
+def apply_imaps(ms, y):
+    for mp in reversed(ms):
+        y = MAPS[mp][1](y)
+    return y
+
+
+def inner_cfg(c):
+    return dict(c, maps=[])
+
+
 def ckey(c):
+    ms = c.get("maps") or []
+    if ms:
+        return "mapped/inner=%s/map=%s" % (ckey(inner_cfg(c)), "+".join(ms))
     k = c["kind"]
     if k == "ident":
         return "ident/%s/n=%d" % (c["cls"], c["n"])
     if k == "image":
         return "image/%s/r=%d/c=%d" % (c["cls"], c["r"], c["cc"])
-    if k == "mapped":
-        return "mapped/%s/n=%d/r=%d/c=%d" % (c["cls"], c["n"], c["r"], c["cc"])
     if k == "kl":
         return "kl/n=%d/m=%d/n2=%d" % (c["n"], c["m"], c["n2"])
     if k == "step":
@@ -71,7 +125,7 @@ def ckey(c):
 
 
 def is2d(c):
-    return (c["kind"] == "image" and not c["cls"].startswith("Visual")) or (c["kind"] == "mapped" and c["cls"] != "Continuous1D")
+    return c["kind"] == "image" and not c["cls"].startswith("Visual")
 
 
 def sel_type(c):
@@ -105,6 +159,22 @@ def step_grid(c):
 
 
 def make_geometry(c, proj=None):
+    """the real geometry of a configuration; a non-empty `maps` wraps it in one MappedGeometry per map"""
+    import cuqi
+    g = _make_inner(c, proj)
+    for mp in (c.get("maps") or []):
+        g = cuqi.geometry.MappedGeometry(g, map=MAPS[mp][0], imap=MAPS[mp][1])
+    return g
+
+
+def innermost(g):
+    import cuqi
+    while isinstance(g, cuqi.geometry.MappedGeometry):
+        g = g.geometry
+    return g
+
+
+def _make_inner(c, proj=None):
     from cuqiverif.core import MachineryError
     import cuqi
     G = cuqi.geometry
@@ -121,9 +191,6 @@ def make_geometry(c, proj=None):
                 return G.Discrete(c["n"])
         if k == "image":
             return _image(c["cls"], c["r"], c["cc"])
-        if k == "mapped":
-            inner = G.Continuous1D(c["n"]) if c["cls"] == "Continuous1D" else _image(c["cls"], c["r"], c["cc"])
-            return G.MappedGeometry(inner, map=lambda x: 2 * x + 1, imap=lambda f: (f - 1) / 2)
         if k == "kl":
             g = G.KLExpansion(np.linspace(0, 1, c["n"]), decay_rate=2, normalizer=12,
                               num_modes=None if c["m"] == 0 else c["m"])
@@ -162,6 +229,7 @@ class Model:
         self.fun_shape = tuple(case["fun_shape"])
         self.has_vec = case["has_vec"]
         self.two = is2d(c)
+        self.maps = list(c.get("maps") or [])
         if self.two:
             self.index = np.array(case["index"], dtype=int)
         if c["kind"] == "step":
@@ -172,13 +240,21 @@ class Model:
             self.coefs = np.array([float(fr(q)) for q in case["coefs"]])
 
     def p2f(self, p):
+        """mapped geometry, structurally: the maps applied entry-wise to the inner geometry's function"""
+        return apply_maps(self.maps, self.p2f_inner(p))
+
+    def node(self, g):
+        """node values of an (inner) function the specification gives in its own coordinates (KL: mode coordinates)"""
+        g = np.asarray(g, dtype=float)
+        return self.B @ g if self.c["kind"] == "kl" else g
+
+    def p2f_inner(self, p):
         c = self.c
         p = np.asarray(p, dtype=float)
         if c["kind"] == "ident":
             return p.copy()
-        if c["kind"] in ("image", "mapped"):
-            f = p[self.index] if self.two else p.copy()
-            return 2 * f + 1 if c["kind"] == "mapped" else f
+        if c["kind"] == "image":
+            return p[self.index] if self.two else p.copy()
         if c["kind"] == "kl":
             modes = np.zeros(self.N)
             modes[:self.par_dim] = self.coefs * p
@@ -195,6 +271,23 @@ class Model:
 
     def tol(self):
         return TOL if sel_type(self.c) else KLTOL
+
+    def rt_tol(self, base, g):
+        """Tolerance of fun2par(maps(g)) for a mapped geometry: a relative rounding error of the function values maps(g) is
+        amplified by |maps(g)| / |maps'(g)| through the inverse maps (e.g. (v^3)*2+1 near v = 0) and by the norm of the inner
+        fun2par (KL: 2 / smallest coefficient).  Unmapped geometries: `base`."""
+        if not self.maps:
+            return base
+        v = np.asarray(g, dtype=float)
+        D = np.ones_like(v)
+        for mp in self.maps:
+            D = D * DMAPS[mp](v)
+            v = MAPS[mp][0](v)
+        ok = (D != 0) & np.isfinite(D) & np.isfinite(v)
+        amp = float(np.max(np.abs(v[ok]) / np.abs(D[ok]))) if ok.any() else 0.0
+        if self.c["kind"] == "kl":
+            amp *= 2.0 / float(np.min(self.coefs))
+        return max(base, 64 * np.finfo(float).eps * amp)
 
 
 def close(a, b, tol):
@@ -347,12 +440,36 @@ def check_maps(ctx, case):
         return
     # --- StepExpansion partition (decides which oracle the projections use)
     steps_status = None
-    if c["kind"] == "step":
+    if c["kind"] == "step" and not m.maps:
         steps_status, code_steps = check_step_partition(ctx, case, G)
         if steps_status == "broken":
             return
         if steps_status == "shifted":
             m.stepof = code_steps
+    elif c["kind"] == "step":
+        # the partition itself is judged on the unmapped configuration; here only: which neighbouring step did the float
+        # comparison give to a node that coincides with an interior step boundary
+        steps_status = "exact"
+        try:
+            Gi = make_geometry(inner_cfg(c), "mean")
+            code = np.asarray(_call(Gi.par2fun, np.arange(1, c["s"] + 1, dtype=float)), dtype=float).reshape(c["n"]).astype(int) - 1
+            boundary = np.array(case["boundary"], dtype=bool)
+            if not np.array_equal(code, m.stepof) and all(code[j] == m.stepof[j] or (boundary[j] and code[j] == m.stepof[j] + 1)
+                                                         for j in range(c["n"])) and set(code.tolist()) == set(range(c["s"])):
+                steps_status, m.stepof = "shifted", code
+        except Exception:       # noqa: BLE001  (reported by the unmapped configuration)
+            pass
+    # --- mapped geometry: the specification's exact values of par2fun (affine / cube maps) against the harness-side maps
+    exact_p2f = {}
+    if m.maps and not case["tagged"] and steps_status in (None, "exact"):
+        nd = 2 if m.two else 1
+        for q in range(d + 1):
+            p = np.eye(d)[q] if q < d else np.arange(1, d + 1, dtype=float)
+            ex = dec(case["p2f"][q], nd)
+            if not close(m.p2f(p), ex, TOL):
+                from cuqiverif.core import MachineryError
+                raise MachineryError("harness-side maps %r disagree with the specification's exact values for %s" % (m.maps, key))
+            exact_p2f["e%d" % q if q < d else "ramp"] = ex
     # --- par2fun on basis vectors and ramps; round trip; vector form
     inputs = [("e%d" % q, np.eye(d)[q]) for q in range(d)] + [("ramp", np.arange(1, d + 1, dtype=float)),
                                                               ("ramp2", (np.arange(1, d + 1, dtype=float) + 2) ** 2 % 11 - 4)]
@@ -364,14 +481,16 @@ def check_maps(ctx, case):
         except Exception as ex:     # noqa: BLE001
             ctx.mismatch("raises/" + sig, case, "par2fun raised: %r" % (ex,))
             continue
-        ef = m.p2f(p)
-        if not compare(ctx, sig, case, "par2fun(p) is not the function the specification's index map gives", ef, f, tol):
+        ef = exact_p2f.get(name, m.p2f(p))
+        if not compare(ctx, sig, case, "par2fun(p) is not the function the specification's index map gives" if not m.maps else
+                       "par2fun(p) of the mapped geometry is not map(inner.par2fun(p))", ef, f, tol):
             continue
         f = np.asarray(f, dtype=float)
         sig = "%s/fun2par_par2fun/in=%s" % (key, name)
         try:
             back = _call(G.fun2par, f.copy())
-            compare(ctx, sig, case, "fun2par(par2fun(p)) is not p", p, back, max(tol, 1e-11) if c["kind"] == "kl" else tol)
+            compare(ctx, sig, case, "fun2par(par2fun(p)) is not p", p, back,
+                    m.rt_tol(max(tol, 1e-11) if c["kind"] == "kl" else tol, m.p2f_inner(p)))
         except Exception as ex:     # noqa: BLE001
             ctx.mismatch("raises/" + sig, case, "fun2par raised: %r" % (ex,))
         if m.has_vec:
@@ -388,14 +507,16 @@ def check_maps(ctx, case):
     for pr in projs:
         Gp = make_geometry(c, pr) if pr else G
         nd = 2 if m.two else 1
-        f0 = dec(case["f0"], nd)
-        if c["kind"] == "kl":
-            f0 = m.B @ f0                      # the spec's function is given in mode coordinates
+        g0 = dec(case["g0"], nd)               # a lattice function (KL: in mode coordinates); mapped: the pre-image of f0
+        f0 = apply_maps(m.maps, m.node(g0))
+        if m.maps and not case["tagged"] and not close(f0, dec(case["f0"], nd), TOL):
+            from cuqiverif.core import MachineryError
+            raise MachineryError("harness-side maps %r disagree with the specification's exact f0 for %s" % (m.maps, key))
         if c["kind"] == "step":
             if steps_status == "exact":
                 ep = dec(case["f2p_" + pr], 1)
             else:                              # boundary node in the neighbouring step: consistency with the code's own partition
-                ep = step_projection(f0, m.stepof, c["s"], pr)
+                ep = step_projection(g0, m.stepof, c["s"], pr)
         else:
             ep = dec(case["f2p"], 1)
         ctx.case(("f2p", key, pr), facet="fun2par")
@@ -405,14 +526,15 @@ def check_maps(ctx, case):
         except Exception as ex:     # noqa: BLE001
             ctx.mismatch("raises/" + sig, case, "fun2par raised: %r" % (ex,))
             continue
-        if not compare(ctx, sig, case, "fun2par(f) is not the documented inverse / projection", ep, p1, tol):
+        if not compare(ctx, sig, case, "fun2par(f) is not the documented inverse / projection" if not m.maps else
+                       "fun2par(f) of the mapped geometry is not inner.fun2par(imap(f))", ep, p1, m.rt_tol(tol, m.node(g0))):
             continue
         try:
             g1 = np.asarray(_call(Gp.par2fun, np.asarray(p1, dtype=float).reshape(d)), dtype=float)
             p2 = _call(Gp.fun2par, g1.copy())
             g2 = _call(Gp.par2fun, np.asarray(p2, dtype=float).reshape(d))
             compare(ctx, "%s/idempotent/proj=%s" % (key, pr), case, "mapping back and forth once more changes the function",
-                    g1, g2, max(tol, 1e-11))
+                    g1, g2, max(tol, 1e-11) if not m.maps else max(1e-9, m.rt_tol(tol, m.node(g0))))
         except Exception as ex:     # noqa: BLE001
             ctx.mismatch("raises/%s/idempotent/proj=%s" % (key, pr), case, "second round trip raised: %r" % (ex,))
     # --- batches: column-wise action
@@ -427,8 +549,9 @@ def check_maps(ctx, case):
         except Exception as ex:     # noqa: BLE001
             ctx.mismatch("raises/" + sig, case, "par2fun raised on a (par_dim, %d) matrix: %r" % (W, ex))
             ok = False
-        asserted = c["kind"] in ("kl", "step") or (c["kind"] == "ident" and c["cls"] != "Discrete") or \
-            (c["kind"] == "image" and c["cls"] == "Continuous2D")
+        asserted = not m.maps and (c["kind"] in ("kl", "step") or (c["kind"] == "ident" and c["cls"] != "Discrete") or
+                                   (c["kind"] == "image" and c["cls"] == "Continuous2D"))
+        okind = ("mapped/" if m.maps else "") + c["kind"] + "/" + c["cls"]
         sig = "%s/fun2par_batch/W=%d" % (key, W)
         try:
             PB = _call(G.fun2par, EF.copy())
@@ -437,12 +560,47 @@ def check_maps(ctx, case):
                 compare(ctx, sig, case, "fun2par of stacked functions is not column-wise fun2par", P, PB, max(tol, 1e-11))
             else:
                 same = np.shape(PB) == P.shape and close(PB, P, 1e-10)
-                ctx.observations.setdefault("fun2par_batch_columnwise", {})[c["kind"] + "/" + c["cls"]] = bool(same)
+                ctx.observations.setdefault("fun2par_batch_columnwise", {})[okind] = bool(same)
         except Exception as ex:     # noqa: BLE001
             if asserted:
                 ctx.mismatch("raises/" + sig, case, "fun2par raised on stacked functions: %r" % (ex,))
             else:
-                ctx.observations.setdefault("fun2par_batch_columnwise", {})[c["kind"] + "/" + c["cls"]] = type(ex).__name__
+                ctx.observations.setdefault("fun2par_batch_columnwise", {})[okind] = type(ex).__name__
+    if m.maps:
+        check_mapped_objects(ctx, case, G, m, tol)
+
+
+def check_mapped_objects(ctx, case, G, m, tol):
+    """Round trips of a mapped geometry through the geometry-carrying objects (consequences of Lossless, per-sample maps):
+    CUQIarray.funvals.parameters, Samples.funvals.parameters, Samples.funvals.vector.funvals, Samples.funvals.vector.parameters"""
+    from cuqi.samples import Samples
+    from cuqi.array import CUQIarray
+    c = case["c"]
+    key = ckey(c)
+    d = m.par_dim
+    P = np.array([[(i + 1) * (1 if w == 0 else -1) + 3 * w for w in range(3)] for i in range(d)], dtype=float)
+    EF = np.stack([m.p2f(P[:, w]) for w in range(P.shape[1])], axis=-1)
+    rt = max(m.rt_tol(max(tol, 1e-11), m.p2f_inner(P[:, w])) for w in range(P.shape[1]))
+    ctx.case(("mapped_objects", key), facet="mapped_objects")
+    steps = [("array/funvals", lambda: np.asarray(CUQIarray(P[:, 1].copy(), geometry=G).funvals), EF[..., 1], tol),
+             ("array/funvals-parameters", lambda: np.asarray(CUQIarray(P[:, 1].copy(), geometry=G).funvals.parameters), P[:, 1], rt),
+             ("array/fun/parameters", lambda: np.asarray(CUQIarray(EF[..., 1].copy(), is_par=False, geometry=G).parameters), P[:, 1], rt),
+             ("samples/funvals", lambda: Samples(P.copy(), geometry=G).funvals.samples, EF, tol),
+             ("samples/funvals-parameters", lambda: Samples(P.copy(), geometry=G).funvals.parameters.samples, P, rt)]
+    if m.has_vec:
+        EV = np.stack([m.f2v(EF[..., w]) for w in range(P.shape[1])], axis=-1)
+        steps += [("samples/funvals-vector", lambda: Samples(P.copy(), geometry=G).funvals.vector.samples, EV, tol),
+                  ("samples/funvals-vector-funvals", lambda: Samples(P.copy(), geometry=G).funvals.vector.funvals.samples, EF, tol),
+                  ("samples/funvals-vector-parameters", lambda: Samples(P.copy(), geometry=G).funvals.vector.parameters.samples, P, rt)]
+    for name, fn, exp, t in steps:
+        sig = "%s/%s" % (key, name)
+        try:
+            got = _call(fn)
+        except Exception as ex:     # noqa: BLE001
+            ctx.mismatch("raises/" + sig, case, "conversion on a mapped geometry raised: %r" % (ex,))
+            continue
+        compare(ctx, sig, case, "conversion of a geometry-carrying object on a mapped geometry is not the per-sample "
+                "map of the specification (par2fun = map . inner.par2fun, fun2par = inner.fun2par . imap)", exp, got, t)
 
 
 # ---------------------------------------------------------------------------------------------------------------
@@ -453,9 +611,12 @@ def conv_value(m, case_val, par, vec, fun1d):
     cols = []
     for v in case_val:
         nd = 1 if (par or vec or fun1d) else 2
-        a = dec(v, nd)
+        tagged = isinstance(v, dict)            # "the maps applied entry-wise to the node values of arg" (function values only)
+        a = dec(v["arg"] if tagged else v, nd)
         if c["kind"] == "kl" and not par:
             a = m.B @ a
+        if tagged:
+            a = apply_maps(v["maps"], a)
         cols.append(a)
     return np.stack(cols, axis=-1)
 
@@ -528,11 +689,281 @@ def replay_conv_group(ctx, mcase, group):
 
 
 # ---------------------------------------------------------------------------------------------------------------
+# one object, a sequence of uses and public reassignments (mode "seq")
+def _set_desc(prev, cur):
+    parts = []
+    for f in ("n", "r", "cc", "x0", "len"):
+        if prev[f] != cur[f]:
+            v = cur[f]
+            parts.append("%s=%s" % (f, ("%d_%d" % tuple(v)) if isinstance(v, list) else v))
+    return ".".join(parts) or "same"
+
+
+def seq_trail_key(c0, trail):
+    out, prev = [], c0
+    for a in trail:
+        if a["op"] == "use":
+            out.append("use_" + a["what"])
+        else:
+            out.append("set_%s.%s" % (a["what"], _set_desc(prev, a["c"])))
+            prev = a["c"]
+    return "-".join(out)
+
+
+def _seq_model(maps, cur):
+    """the specification's values for the CURRENT configuration = the maps case of its inner geometry (+ the maps)"""
+    from cuqiverif.core import MachineryError
+    ik = ckey(dict(cur, maps=[], proj=""))
+    if ik not in maps:
+        raise MachineryError("seq behaviour passes through %s for which the spec emitted no maps case" % ik)
+    return Model(dict(maps[ik], c=cur)), maps[ik]
+
+
+def apply_set(G, cur):
+    """the public setter of the (innermost) geometry; returns the name of the attribute"""
+    from cuqiverif.core import MachineryError
+    g = innermost(G)
+    k = cur["kind"]
+    attr = "variables" if cur["cls"] == "Discrete" else "grid"
+    prop = getattr(type(g), attr, None)
+    if not isinstance(prop, property) or prop.fset is None:
+        raise AttributeError("%s.%s has no public setter" % (type(g).__name__, attr))
+    with warnings.catch_warnings(), contextlib.redirect_stdout(io.StringIO()):
+        warnings.simplefilter("ignore")
+        if k == "ident":
+            setattr(g, attr, cur["n"])
+        elif k == "image" and cur["cls"] == "Continuous2D":
+            g.grid = (cur["r"], cur["cc"])
+        elif k == "kl":
+            g.grid = np.linspace(0, 1, cur["n"])
+        elif k == "step":
+            g.grid = step_grid(cur)
+        else:
+            raise MachineryError("no public setter modelled for %r" % (cur,))
+    return attr
+
+
+class _SeqReplay:
+    def __init__(self, ctx, maps, sc):
+        self.ctx, self.maps = ctx, maps
+        self.c0, self.trail = sc["c0"], sc["trail"]
+        self.key0 = ckey(self.c0)
+        self.tkey = seq_trail_key(self.c0, self.trail)
+        self.case = {"kind": "seq", "c0": self.c0, "trail": self.trail}
+        self.hist = [self.c0]                # configurations the object went through
+        self.G = None
+        self._stale = {}
+
+    # ----- reporting -------------------------------------------------------------------------------------------
+    def sig(self, at, what):
+        return "seq/%s/trail=%s/at=%s/%s" % (self.key0, self.tkey, at, what)
+
+    def stale_state(self, cur):
+        """Diagnosis of a failing object (called only after a disagreement): is it answering from something remembered
+        for an EARLIER configuration of this behaviour?  'step': the partition of the construction-time grid;
+        'wrapper': a MappedGeometry's function shape / vector shape inferred before the inner geometry was changed."""
+        k = len(self.hist)
+        if k in self._stale:
+            return self._stale[k]
+        out = None
+        G = self.G
+        m, _ = _seq_model(self.maps, cur)
+        try:
+            if cur["kind"] == "step" and cur["n"] != self.c0["n"]:
+                m0, _ = _seq_model(self.maps, self.c0)
+                n0, n1, s = self.c0["n"], cur["n"], cur["s"]
+                ramp = np.arange(1, s + 1, dtype=float)
+                try:
+                    got = np.asarray(_call(G.par2fun, ramp.copy()), dtype=float)
+                    if n1 > n0:
+                        stale = apply_maps(m.maps, np.concatenate([ramp[m0.stepof], np.zeros(n1 - n0)]))
+                        if got.shape == stale.shape and close(got, stale, TOL) and not close(got, m.p2f(ramp), TOL):
+                            out = "step"
+                except IndexError:
+                    if n1 < n0:
+                        out = "step"
+            if out is None and m.maps:
+                past = [tuple(_seq_model(self.maps, h)[0].fun_shape) for h in self.hist[:-1]]
+                fs = tuple(_call(lambda: G.fun_shape))
+                if fs != tuple(m.fun_shape) and fs in past:
+                    out = "wrapper"
+        except Exception:       # noqa: BLE001
+            out = None
+        self._stale[k] = out
+        return out
+
+    def report(self, cls, at, what, text, expected=None, observed=None, cur=None):
+        st = self.stale_state(cur) if cur is not None else None
+        if st == "step":
+            self.ctx.mismatch("seq_stale_step_partition/" + self.sig(at, what), self.case,
+                              "after the grid of a StepExpansion was reassigned the maps still use the partition of the "
+                              "construction-time grid (%s)" % text, expected, observed)
+        elif st == "wrapper":
+            self.ctx.mismatch("seq_stale_wrapper_shape/" + self.sig(at, what), self.case,
+                              "a MappedGeometry keeps the function shape it inferred before the grid of the geometry it "
+                              "wraps was reassigned (%s)" % text, expected, observed)
+        else:
+            self.ctx.mismatch(cls + "/" + self.sig(at, what), self.case, text, expected, observed)
+
+    def cmp(self, at, what, text, expected, observed, tol, cur):
+        expected = np.asarray(expected, dtype=float)
+        try:
+            obs = np.asarray(observed, dtype=float)
+        except Exception:       # noqa: BLE001
+            obs = None
+        if obs is not None and obs.shape == expected.shape and close(obs, expected, tol):
+            return True
+        if obs is None or self.stale_state(cur):
+            self.report("value", at, what, text, expected, repr(observed)[:200] if obs is None else obs, cur)
+            return False
+        return compare(self.ctx, self.sig(at, what), self.case, text, expected, obs, tol)
+
+    # ----- the public calls --------------------------------------------------------------------------------------
+    def use(self, at, what, cur):
+        ctx, G = self.ctx, self.G
+        m, mcase = _seq_model(self.maps, cur)
+        d = m.par_dim
+        tol = m.tol()
+        ctx.case(("seq", self.key0, self.tkey, at, what), facet="seq_" + what)
+        done = self.tkey.split("-")
+        after = "after %s" % ("-".join(done if at == "end" else done[:at]) or "construction")
+        ramp = np.arange(1, d + 1, dtype=float)
+        rt = max(m.rt_tol(max(tol, 1e-11), m.p2f_inner(ramp)), m.rt_tol(max(tol, 1e-11), m.p2f_inner(3 - ramp)))
+        if what == "shape":
+            exp = {"par_shape": (d,), "fun_shape": tuple(m.fun_shape), "par_dim": d, "fun_dim": int(np.prod(m.fun_shape))}
+            if m.has_vec:
+                exp["funvec_shape"] = tuple(mcase["funvec_shape"])
+                exp["funvec_dim"] = mcase["funvec_shape"][0]
+            rep = {}
+            for name in exp:
+                try:
+                    v = _call(lambda: getattr(G, name))
+                    rep[name] = tuple(v) if isinstance(v, (tuple, list)) else v
+                except Exception as ex:     # noqa: BLE001
+                    rep[name] = "raised " + type(ex).__name__
+            try:
+                nv = len(_call(lambda: G.variables))
+                o = ctx.observations.setdefault("seq_len_variables_equals_par_dim", {"true": 0, "false": 0})
+                o["true" if nv == d else "false"] += 1
+            except Exception:       # noqa: BLE001
+                pass
+            diff = sorted(k for k in exp if rep[k] != exp[k])
+            if not diff:
+                return
+            text = "shapes / dimensions reported %s differ from those of a fresh geometry with the current settings" % after
+            vec_only = set(diff) <= {"funvec_shape", "funvec_dim"}
+            past_vec = [tuple(_seq_model(self.maps, h)[1]["funvec_shape"]) for h in self.hist[:-1]]
+            if vec_only and not m.maps and rep.get("funvec_shape") in past_vec:
+                ctx.mismatch("seq_stale_funvec_shape/" + self.sig(at, "reported_shape"), self.case,
+                             "funvec_shape / funvec_dim keep the value inferred before the reassignment (%s)" % text, exp, rep)
+            elif vec_only and m.maps and rep.get("funvec_shape") in past_vec:
+                ctx.mismatch("seq_stale_wrapper_shape/" + self.sig(at, "reported_shape"), self.case,
+                             "a MappedGeometry keeps the vector-form shape it inferred before the grid of the geometry it wraps "
+                             "was reassigned (%s)" % text, exp, rep)
+            else:
+                self.report("reported_shape", at, "reported_shape", text, exp, rep, cur)
+            return
+        if what == "p2f":
+            for name, p in (("e0", np.eye(d)[0]), ("ramp", ramp)):
+                try:
+                    f = _call(G.par2fun, p.copy())
+                except Exception as ex:     # noqa: BLE001
+                    self.report("raises", at, "par2fun/in=" + name, "par2fun raised %s: %r" % (after, ex), cur=cur)
+                    return
+                self.cmp(at, "par2fun/in=" + name, "par2fun(p) %s is not that of a fresh geometry with the current settings" % after,
+                         m.p2f(p), f, tol, cur)
+            return
+        if what == "f2p":
+            nd = 2 if m.two else 1
+            pr = cur["proj"] or "mean"
+            f0 = apply_maps(m.maps, m.node(dec(mcase["g0"], nd)))
+            ep = dec(mcase["f2p_" + pr] if cur["kind"] == "step" else mcase["f2p"], 1)
+            for name, f, e, t in (("fun2par_par2fun/in=ramp", m.p2f(ramp), ramp, rt), ("fun2par/proj=%s" % (pr if cur["kind"] == "step" else None), f0, ep, m.rt_tol(tol, m.node(dec(mcase["g0"], nd))))):
+                try:
+                    q = _call(G.fun2par, np.asarray(f, dtype=float).copy())
+                except Exception as ex:     # noqa: BLE001
+                    self.report("raises", at, name, "fun2par raised %s: %r" % (after, ex), cur=cur)
+                    return
+                self.cmp(at, name, "fun2par(f) %s is not that of a fresh geometry with the current settings" % after, e, q, t, cur)
+            return
+        if what == "conv":
+            from cuqi.samples import Samples
+            from cuqi.array import CUQIarray
+            P = np.stack([ramp, 3 - ramp], axis=-1)
+            EF = np.stack([m.p2f(P[:, w]) for w in range(2)], axis=-1)
+            for name, fn, e, t in (("samples/funvals", lambda: Samples(P.copy(), geometry=G).funvals.samples, EF, tol),
+                                   ("samples/funvals-parameters", lambda: Samples(P.copy(), geometry=G).funvals.parameters.samples, P, rt),
+                                   ("array/funvals-parameters", lambda: np.asarray(CUQIarray(P[:, 1].copy(), geometry=G).funvals.parameters), P[:, 1], rt)):
+                try:
+                    got = _call(fn)
+                except Exception as ex:     # noqa: BLE001
+                    self.report("raises", at, name, "conversion raised %s: %r" % (after, ex), cur=cur)
+                    continue
+                self.cmp(at, name, "conversion %s is not the per-sample map of a fresh geometry with the current settings" % after,
+                         e, got, t, cur)
+            return
+        from cuqiverif.core import MachineryError
+        raise MachineryError("unknown use %r emitted by the spec" % (what,))
+
+    def run(self):
+        ctx = self.ctx
+        try:
+            self.G = make_geometry(self.c0)
+        except Exception as ex:     # noqa: BLE001
+            from cuqiverif.core import MachineryError
+            if isinstance(ex, MachineryError):
+                raise
+            ctx.mismatch("construct/" + self.key0, self.case, "an admissible configuration cannot be constructed: %r" % (ex,))
+            return 0
+        cur = self.c0
+        nset = 0
+        for i, a in enumerate(self.trail):
+            if a["op"] == "set":
+                try:
+                    apply_set(self.G, a["c"])
+                except Exception as ex:     # noqa: BLE001
+                    from cuqiverif.core import MachineryError
+                    if isinstance(ex, MachineryError):
+                        raise
+                    # a refused assignment is acceptable; the behaviour ends here
+                    o = ctx.observations.setdefault("seq_set_refused", {})
+                    o[a["c"]["kind"] + "/" + a["c"]["cls"]] = type(ex).__name__
+                    return nset
+                cur = a["c"]
+                self.hist.append(cur)
+                nset += 1
+                ctx.case(("seq", self.key0, self.tkey, i, "set"), facet="seq_set")
+            else:
+                self.use(i, a["what"], cur)
+        for w in ("shape", "p2f", "f2p", "conv"):           # finally every public call once more
+            self.use("end", w, cur)
+        return nset
+
+
+# ---------------------------------------------------------------------------------------------------------------
 def run_deviations(ctx):
+    """Each named deviation must violate its invariant on the specification (design-level refutation + vacuity test of the
+    invariant).  The TLC runs are independent: a few at a time."""
     from cuqiverif.core import MachineryError
     from cuqiverif import tlc as _t
-    for dev, inv in DEVIATIONS:
-        res = ctx.tlc("Geometry", cfg="Geometry.dev_%s.cfg" % dev, workers=4, timeout=600, expect_violation=True)
+    import concurrent.futures as cf
+
+    import os, time
+
+    def one(dv):
+        dev, inv = dv
+        # an explicit work directory per run: the default name (pid + milliseconds) is not unique across threads
+        wd = os.path.join(_t.WORK, "Geometry-dev_%s-%d-%d" % (dev, os.getpid(), int(time.time() * 1000) % 10**7))
+        return dev, inv, _t.run_tlc("Geometry", cfg="Geometry.dev_%s.cfg" % dev, workdir=wd, workers=4, timeout=600, expect_violation=True)
+
+    with cf.ThreadPoolExecutor(max_workers=4) as ex:
+        results = list(ex.map(one, DEVIATIONS))
+    for dev, inv, res in results:
+        ctx.states += res.distinct
+        ctx.transitions += res.generated
+        ctx.tlc_runs.append({"spec": "Geometry", "cfg": "Geometry.dev_%s.cfg" % dev, "distinct": res.distinct, "generated": res.generated,
+                             "depth": res.depth, "wall_s": round(res.wall_s, 2), "cases": len(res.cases), "violated": res.violated,
+                             "coverage": None})
         if res.ok or res.violated != inv:
             raise MachineryError("deviation %s must violate %s on the specification (vacuity test), got %r" % (dev, inv, res.violated))
         ctx.observations.setdefault("deviations_violating", {})[dev] = inv
@@ -559,57 +990,106 @@ def _cases(ctx, tier):
         for k in res.cases:
             if k["kind"] == "conv":
                 convs.setdefault((ckey(k["c"]), k["rep"], k["origin"]), []).append(k)
+        seqs = {(ckey(k["c0"]), seq_trail_key(k["c0"], k["trail"])): k for k in res.cases if k["kind"] == "seq"}
         _t.cleanup(res)
-        if not maps or not convs:
-            raise MachineryError("Geometry emitted no maps / conv cases")
-        _CASES[tier] = (maps, convs)
+        if not maps or not convs or not seqs:
+            raise MachineryError("Geometry emitted no maps / conv / seq cases")
+        _CASES[tier] = (maps, convs, seqs)
     return _CASES[tier]
 
 
-def run(ctx, only=None):
+def _vacuity(maps, seqs):
+    """what the strengthened facets need from the specification's enumeration"""
     from cuqiverif.core import MachineryError
-    if only is None:
-        maps, convs = _cases(ctx, ctx.tier)
+    have = set()
+    for k in maps.values():
+        c = k["c"]
+        if c["maps"]:
+            sub = c["cls"] if c["kind"] in ("ident", "image") else ("all" if c["m"] == 0 else "truncated") if c["kind"] == "kl" else "step"
+            have.add((c["kind"], sub, "+".join(c["maps"])))
+    need = [(kind, sub, mp) for mp in ("affine", "cube", "exp", "affine+cube", "cube+affine")
+            for kind, sub in (("ident", "Continuous1D"), ("ident", "Discrete"), ("image", "Image2D_C"), ("image", "Image2D_F"),
+                              ("image", "Continuous2D"), ("kl", "all"), ("kl", "truncated"), ("step", "step"))]
+    miss = [x for x in need if x not in have]
+    if miss:
+        raise MachineryError("vacuous: the spec emitted no mapped configuration for %r" % (miss[:5],))
+    kinds = set()
+    for k in seqs.values():
+        ops = [a["op"] for a in k["trail"]]
+        if "set" in ops and ops.index("set") > 0 and ops[-1] == "use":
+            kinds.add((k["c0"]["kind"], bool(k["c0"]["maps"])))
+    needs = [("ident", False), ("image", False), ("kl", False), ("step", False), ("ident", True), ("kl", True), ("step", True)]
+    miss = [x for x in needs if x not in kinds]
+    if miss:
+        raise MachineryError("vacuous: no Use . Set . Use behaviour emitted for %r" % (miss,))
+
+
+def run(ctx, only=None, only_seq=None):
+    from cuqiverif.core import MachineryError
+    if only is None and only_seq is None:
+        maps, convs, seqs = _cases(ctx, ctx.tier)
+        _vacuity(maps, seqs)
         run_deviations(ctx)
     else:
-        maps, convs = _cases(ctx, "quick")
-        if only not in maps:
-            maps, convs = _cases(ctx, "thorough")
+        maps, convs, seqs = _cases(ctx, "quick")
+        if (only is not None and only not in maps) or (only_seq is not None and only_seq not in seqs):
+            maps, convs, seqs = _cases(ctx, "thorough")
     kinds = {}
     for key in sorted(maps):
-        if only is not None and key != only:
+        if only_seq is not None or (only is not None and key != only):
             continue
         check_maps(ctx, maps[key])
-        kinds[maps[key]["c"]["kind"]] = kinds.get(maps[key]["c"]["kind"], 0) + 1
+        kk = ("mapped/" if maps[key]["c"]["maps"] else "") + maps[key]["c"]["kind"]
+        kinds[kk] = kinds.get(kk, 0) + 1
     nbeh = 0
     for (key, rep, origin) in sorted(convs):
         grp = convs[(key, rep, origin)]
         mk = _maps_like(grp[0]["c"])
-        if only is not None and mk != only and key != only:
+        if only_seq is not None or (only is not None and mk != only and key != only):
             continue
         if mk not in maps:
             raise MachineryError("no maps case for the conversion configuration %s" % key)
         nbeh += replay_conv_group(ctx, maps[mk], grp)
+    nseq = nsets = 0
+    for sk in sorted(seqs):
+        if only is not None or (only_seq is not None and sk != only_seq):
+            continue
+        nsets += _SeqReplay(ctx, maps, seqs[sk]).run()
+        nseq += 1
+    if only is None and only_seq is None:
+        ctx.observe("seq_behaviours", {"replayed": nseq, "reassignments_applied": nsets})
     ctx.observe("configurations_by_kind", kinds)
     ks = sorted(maps)
-    for pick in [k for k in ks if k.startswith("image/Image2D_F/r=2/c=3")][:1] + [k for k in ks if k.startswith("step/") and "n=6/s=5" in k][:1]:
+    for pick in [k for k in ks if k.startswith("image/Image2D_F/r=2/c=3")][:1] + [k for k in ks if k.startswith("step/") and "n=6/s=5" in k][:1] \
+            + [k for k in ks if k.startswith("mapped/inner=step/") and k.endswith("map=cube")][:1]:
         mc = maps[pick]
-        ctx.sample({"maps": {k: mc[k] for k in ("c", "par_shape", "fun_shape", "funvec_shape", "index", "stepof", "boundary", "f2p", "f2p_mean")}})
+        ctx.sample({"maps": {k: mc[k] for k in ("c", "par_shape", "fun_shape", "funvec_shape", "index", "stepof", "boundary", "g0", "f0", "p2f",
+                                                "f2p", "f2p_mean")}})
     g = [x for x in convs.get(("image/Image2D_F/r=2/c=3", "samples", "par"), []) if x["trail"] == ["funvals", "vector"]]
     if g:
         ctx.sample({"conv": g[0]})
-    ctx.rule = ("one case per geometry configuration (maps) x input (basis vectors, two ramps, a function outside the range, "
-                "batches of width 2 and 3) and one per conversion behaviour (configuration, Samples / CUQIarray, origin, trail) "
-                "emitted by TLC from Geometry.tla")
+    sq = [seqs[k] for k in sorted(seqs) if k[0].startswith("kl/") and "set_grid" in k[1] and k[1].startswith("use_")][:1]
+    if sq:
+        ctx.sample({"seq": sq[0]})
+    ctx.rule = ("one case per geometry configuration (maps; mapped geometries: every inner kind x map stack) x input (basis vectors, "
+                "two ramps, a function outside the range, batches of width 2 and 3, CUQIarray / Samples round trips), one per "
+                "conversion behaviour (configuration, Samples / CUQIarray, origin, trail) and one per action of every use / "
+                "reassign behaviour on one object, all emitted by TLC from Geometry.tla")
     ctx.exhaustive = True
-    ctx.traces = nbeh + len(maps) if only is None else nbeh
+    ctx.traces = nbeh + nseq + (len(maps) if only is None and only_seq is None else 0)
     ctx.assumptions += ["sizes bounded by the cfg; step grids np.linspace(float(x0), float(x0 + L), n) with correctly rounded end points",
                         "KLExpansion compared with the sine basis of its docstring evaluated with numpy (1e-10)",
-                        "a node on an interior step boundary may belong to either neighbouring step (observation) if the steps partition the grid"]
+                        "a node on an interior step boundary may belong to either neighbouring step (observation) if the steps partition the grid",
+                        "maps of mapped geometries are numpy float functions (2v+1, v**3 / cbrt, exp / log) applied to the specification's "
+                        "pre-image; their exact rational values (affine, cube) are cross-checked against the specification",
+                        "only attributes with a public setter are reassigned (grid, Discrete.variables); constructor-only attributes "
+                        "(order, visual_only, num_modes, n_steps, decay_rate, normalizer, map, imap) are not"]
 
 
 def replay(ctx, case):
     if case.get("kind") == "model":
         return run(ctx)
+    if case.get("kind") == "seq":
+        return run(ctx, only_seq=(ckey(case["c0"]), seq_trail_key(case["c0"], case["trail"])))
     c = case["c"]
     return run(ctx, only=_maps_like(c))
